@@ -447,6 +447,69 @@ def check_refused_read(ld, kind, n, rngkind, seed, via, res):
             return
 
 
+def check_bare_sources(ld, rngkind, seed, res):
+    """Shuffles and samples of sources that are used without the usual
+    serialising map on top (the bare ListDataset / DictDataset that
+    from_file(..., immutable_warranty=None) and the docstrings use), with
+    examples that are themselves sequences ([path, label] pairs), down to a
+    single example and a single drawn index."""
+    core = ld.core
+    for n in (1, 2, 3, 6):
+        exs = [[f'p{i}.wav', i] for i in range(n)]
+        for backing in ('list', 'tuple', 'dict'):
+            def mk():
+                e = [list(x) for x in exs]
+                if backing == 'dict':
+                    return core.DictDataset({f'k{i}': x for i, x in enumerate(e)})
+                return core.ListDataset(e if backing == 'list' else tuple(e))
+            rng = lambda: make_rng(rngkind, seed) or np.random.RandomState(seed)
+            forms = {
+                'once': lambda: mk().shuffle(False, rng()),
+                'reshuffle-frozen': lambda: mk().shuffle(True, rng()).copy(freeze=True),
+                'reshuffle-catch': lambda: mk().shuffle(True, rng()).catch(),
+                'reshuffle': lambda: mk().shuffle(True, rng()),
+                'tile-shuffle': lambda: mk().tile(2, shuffle=True),
+                'choice-1': lambda: mk().random_choice(1, rng_state=rng()),
+                'choice-all': lambda: mk().random_choice(n, rng_state=rng(), replace=False),
+                'split': lambda: mk().split(n)[0] if n else mk(),
+                'index-array-1': lambda: mk()[np.array([n - 1])],
+                'index-list-1': lambda: mk()[[0]],
+            }
+            for fn, form in forms.items():
+                case = {'bare_source': backing, 'n': n, 'form': fn, 'rng': rngkind, 'seed': seed}
+                res.case(('bare', backing, n, fn, rngkind, seed), True)
+                try:
+                    ds = form()
+                    out = [list(ds), list(ds)]
+                    try:
+                        ln = len(ds)
+                    except TypeError:
+                        ln = None          # no length offered (catch)
+                except BaseException as e:
+                    res.violation('interleaved-raised', case, exc_sig(e),
+                                  sig={'shuffle': 'bare source', 'concurrent': False})
+                    continue
+                res.count('iterators_checked', 2)
+                res.count('bare_source_shuffles_checked')
+                want_n = {'tile-shuffle': 2 * n, 'choice-1': 1, 'split': 1,
+                          'index-array-1': 1, 'index-list-1': 1}.get(fn, n)
+                ok = True
+                for o in out:
+                    if len(o) != want_n or ln not in (None, want_n) or \
+                            any(not isinstance(x, list) or x not in exs for x in o):
+                        ok = False
+                    elif fn in ('once', 'reshuffle-frozen', 'reshuffle-catch', 'reshuffle',
+                                'choice-all') and sorted(x[1] for x in o) != list(range(n)):
+                        ok = False
+                    elif fn == 'tile-shuffle' and \
+                            sorted(x[1] for x in o) != sorted(list(range(n)) * 2):
+                        ok = False
+                if not ok:
+                    res.violation('not-a-permutation', case, {'passes': out, 'len': ln,
+                                                              'examples': exs},
+                                  sig={'shuffle': 'bare source of sequences', 'concurrent': False})
+
+
 def check_compose(ld, how, kind, n, b, rngkind, seed, res):
     case = {'compose': how, 'shuffle': kind, 'n': n, 'b': b, 'rng': rngkind,
             'seed': seed}
@@ -571,6 +634,8 @@ def run_shard(spec, res):
                     'interleaving': [0, 0, 1, 0, 1, 1, 0, 1],
                     'note': 'iterator index of each successive next() call'})
         if kind == 'reshuffle':
+            for s_ in range(3):
+                check_bare_sources(ld, spec['rng'], base + s_, res)
             for n in (2, 5, 9):
                 for s_ in range(4):
                     for via in ('items', 'keys', 'lookup', 'items-of-filter'):
@@ -638,6 +703,8 @@ def replay(case, res):
     elif 'interleaving' in case:
         check_interleaved(ld, case['shuffle'], case['n'], case['b'], case['rng'],
                           case['seed'], tuple(case['interleaving']), res)
+    elif 'bare_source' in case:
+        check_bare_sources(ld, case['rng'], case['seed'], res)
     elif 'refused_read_during_suspended_iteration' in case:
         check_refused_read(ld, case['shuffle'], case['n'], case['rng'], case['seed'],
                            case['refused_read_during_suspended_iteration'], res)
